@@ -10,10 +10,10 @@ import (
 
 func init() {
 	register(&propDef{
-		ID:    "C18",
-		Level: "other",
+		ID:      "C18",
+		Level:   "other",
 		Explain: "Structural necessary conditions of bounded, draining shutdown, decided per implementation / per path: (D1) every repo implementation of proxy.Server.Shutdown(ctx) uses its ctx (it reaches a call or a receive) and never calls an unbounded blocking primitive (grpc GracefulStop, WaitGroup.Wait) synchronously — such a call must run in a goroutine that is raced against ctx.Done(); (D2) proxy.Shutdown gives each server context.WithTimeout(Background, timeout) with the timeout parameter, and main passes cfg.Proxy.ShutdownWait; (J1) in proxy.Shutdown wg.Add precedes each go, Done is deferred in the goroutine, Wait follows the loop, and the registry lock is released before waiting; (L1) every Lock in packages proxy and proxy/tcp is released on every path to every return; (O1) tcp.Server.Shutdown closes the listeners before waiting on ctx and the connections after; (R1) in package proxy only serve() (which registers the server) and the composite server call Serve on a proxy.Server; (E1) the exit callback deregisters, sleeps the grace period, then calls proxy.Shutdown, in that order. (R3) proxy.Shutdown empties the server registry inside the critical section that snapshots it, so draining servers are not reachable by CloseProxy/Close; (X1) package exit does not release its signal registration (signal.Stop/Reset/Ignore) on a path that leads to the exit-handler call; Not decided: wall-clock bounds (timing).",
-		Run:   runC18,
+		Run:     runC18,
 		Trusted: []string{"net/http.Server.Shutdown honours its context", "context.WithTimeout cancels after the timeout", "grpc.Server.Stop forcibly closes open streams"},
 		Mutants: []mutant{
 			{Name: "draining servers stay registered", File: "proxy/serve.go", Old: "\t\tsrvs[k] = v\n\t}\n\tservers = make(map[string]Server)\n\tmu.Unlock()\n", New: "\t\tsrvs[k] = v\n\t}\n\tmu.Unlock()\n", Expect: "C18.R3"},
